@@ -11,11 +11,15 @@ import (
 // Checks maps property ids to their check functions.
 var Checks = map[string]func(tier string, seed uint64) int{
 	"C01": C01,
+	"C02": C02,
+	"C06": C06,
 }
 
 // Generators maps property ids to their case generators (debug aid).
 var Generators = map[string]func(seed uint64, i int) *world.Case{
 	"C01": GenC01,
+	"C02": GenC02,
+	"C06": GenC06,
 }
 
 // Replay re-runs a replay file in a fresh process and reports whether the
